@@ -406,6 +406,49 @@ func C08Gen(r *Run) {
 			r.Dist["pipe"]++
 		}
 	}
+	// 3c. has() on the RESERVED fields of the current element (_gid, _label) as the first filter after V():
+	// the planner may answer such a filter from an index (IndexStartOptimize); whatever it does with and/or/
+	// not around conditions it can and cannot look up, the step keeps what the condition keeps
+	// (seed C08-l: or(eq(_gid,a), neq(_gid,a)) planned as a lookup of a)
+	{
+		pe := []interface{}{}
+		for i, d := range elems {
+			pe = append(pe, map[string]interface{}{"gid": fmt.Sprintf("v%d", i), "label": []string{"L", "M"}[i%2], "data": Tag(d)})
+		}
+		rl := []map[string]interface{}{
+			{"c": "eq", "k": "_gid", "v": Tag("v0")},
+			{"c": "neq", "k": "_gid", "v": Tag("v0")},
+			{"c": "within", "k": "_gid", "v": Tag([]interface{}{"v1", "v2"})},
+			{"c": "within", "k": "_gid", "v": Tag([]interface{}{"v1", 3.0})},
+			{"c": "without", "k": "_gid", "v": Tag([]interface{}{"v0", "v1"})},
+			{"c": "gt", "k": "_gid", "v": Tag("v1")},
+			{"c": "eq", "k": "_gid", "v": Tag(3.0)},
+			{"c": "eq", "k": "_label", "v": Tag("L")},
+			{"c": "neq", "k": "_label", "v": Tag("L")},
+			{"c": "within", "k": "_label", "v": Tag([]interface{}{"M", "zz"})},
+			{"c": "eq", "k": "$._gid", "v": Tag("v3")},
+			{"c": "gt", "k": "x", "v": Tag(1.0)},
+		}
+		fam := []map[string]interface{}{}
+		for _, a := range rl {
+			fam = append(fam, a, map[string]interface{}{"not": a})
+			for _, b := range rl {
+				or := map[string]interface{}{"or": []interface{}{a, b}}
+				and := map[string]interface{}{"and": []interface{}{a, b}}
+				fam = append(fam, or, and, map[string]interface{}{"not": or},
+					map[string]interface{}{"and": []interface{}{or, rl[7]}},
+					map[string]interface{}{"or": []interface{}{a, b, rl[2]}},
+					map[string]interface{}{"not": map[string]interface{}{"and": []interface{}{map[string]interface{}{"not": a}, map[string]interface{}{"not": b}}}})
+			}
+		}
+		for i, e := range fam {
+			if r.Tier != "thorough" && i%2 == 1 && i > 500 {
+				continue
+			}
+			emit(map[string]interface{}{"op": "pipe", "elems": pe, "expr": e})
+			r.Dist["pipe-reserved"]++
+		}
+	}
 	// 4. random deeper expressions over random grid leaves
 	nrand := 3000
 	if r.Tier == "thorough" {
